@@ -316,8 +316,11 @@ impl Indexable for ast::If {
     type Output = ();
     fn index(&self, ctx: &mut IndexCtx) -> Option<Self::Output> {
         self.condition()?.index(ctx);
-        self.then_body()?.index(ctx);
-        self.else_body()?.index(ctx);
+        for body in [self.then_body(), self.else_body()].into_iter().flatten() {
+            ctx.scopes.push(ScopeKind::Block);
+            body.index(ctx);
+            ctx.scopes.pop();
+        }
         None
     }
 }
@@ -326,7 +329,11 @@ impl Indexable for ast::Let {
     type Output = ();
     fn index(&self, ctx: &mut IndexCtx) -> Option<Self::Output> {
         self.let_list()?.index(ctx);
-        self.statement_list()?.index(ctx);
+        ctx.scopes.push(ScopeKind::Block);
+        if let Some(list) = self.statement_list() {
+            list.index(ctx);
+        }
+        ctx.scopes.pop();
         None
     }
 }
